@@ -73,17 +73,22 @@ impl lang::Navigate for Tokenizer
 				if tok.kind()=="tok_data" {
 					let items: String = String::from(&self.line[std::ops::Range {start: tok.end_byte(),end: curs.node().end_byte()}]);
 					self.tokenized_line.push(*self.tok_map.get("tok_data").unwrap());
-					self.tokenized_line.append(&mut Self::stringlike_node_to_bytes(&items,false));
+					self.tokenized_line.append(&mut Self::checked_stringlike(&items,false)?);
 					return Ok(lang::Navigation::GotoSibling);
 				}
 			}
 		}
 		if curs.node().kind()=="str" {
-			self.tokenized_line.append(&mut Self::stringlike_node_to_bytes(&node_str, true));
+			let mut bytes = Self::checked_stringlike(&node_str, true)?;
+			if bytes.iter().filter(|b| **b==34).count() != node_str.matches('"').count() {
+				error!("escape produces a quote that would end the string");
+				return Err(Box::new(lang::Error::Tokenization));
+			}
+			self.tokenized_line.append(&mut bytes);
 			return Ok(lang::Navigation::GotoSibling);
 		}
 		if curs.node().kind()=="comment_text" {
-			self.tokenized_line.append(&mut Self::stringlike_node_to_bytes(&node_str, false));
+			self.tokenized_line.append(&mut Self::checked_stringlike(&node_str, false)?);
 			return Ok(lang::Navigation::GotoSibling);
 		}
 
@@ -119,6 +124,15 @@ impl Tokenizer
 	fn stringlike_node_to_bytes(txt: &str,trim: bool) -> Vec<u8> {
 		let ans = match trim { true => txt.trim_start().to_string(), false => txt.to_string() };
 		return crate::parse_escaped_ascii(&ans, false, false);
+	}
+	/// a null cannot be represented, it would end the line
+	fn checked_stringlike(txt: &str,trim: bool) -> Result<Vec<u8>,DYNERR> {
+		let ans = Self::stringlike_node_to_bytes(txt,trim);
+		if ans.contains(&0) {
+			error!("escape produces a null that would end the line");
+			return Err(Box::new(lang::Error::Tokenization));
+		}
+		Ok(ans)
 	}
 	fn tokenize_line(&mut self,parser: &mut tree_sitter::Parser) -> STDRESULT {
 		self.tokenized_line = Vec::new();
